@@ -39,6 +39,9 @@ type AuthCfg struct {
 	// The mechanism has no specification beyond an expired draft; servers differ in spelling
 	// and some repeat a prompt. The answers are positional.
 	LoginPrompts []string `json:"loginPrompts,omitempty"`
+	// AdversaryFromConn: connections with a lower index get the honest servers (an earlier,
+	// regular session of the same or another client), the adversary takes over from this one on.
+	AdversaryFromConn int `json:"adversaryFromConn,omitempty"`
 }
 
 func (a AuthCfg) loginPrompt(i int) []byte {
@@ -69,7 +72,7 @@ type SASLServer interface {
 }
 
 func (a AuthCfg) newServer(mech string, s *Session) SASLServer {
-	if len(a.Adversary) > 0 && strings.HasPrefix(mech, "SCRAM-") {
+	if len(a.Adversary) > 0 && strings.HasPrefix(mech, "SCRAM-") && (s == nil || s.ID >= a.AdversaryFromConn) {
 		return newAdversary(a, mech, s)
 	}
 	switch mech {
@@ -480,6 +483,9 @@ func (s *scramSrv) clientFinal(m string) StepOut {
 	}
 	s.step = 2
 	ss := hm(s.h, serverKey, authMsg)
+	if s.sess != nil {
+		s.sess.srv.LastHonestFinal = "v=" + base64.StdEncoding.EncodeToString(ss)
+	}
 	return StepOut{Challenge: []byte("v=" + base64.StdEncoding.EncodeToString(ss)), Note: "proof ok"}
 }
 
